@@ -48,22 +48,36 @@ extern int32_t g_k;
     __CPROVER_ensures(result->a[GKP] == 0 && result->b == 0 && result->current_variance == 0.0)
 #define LOOP_lweClear_0(i) LWE_LOOP(i, params->n, result->a, 0)
 
+/* In-place variants (KNOB_ALIAS): the same real body with result and sample the SAME object (bootsNOT(x,x), bootsCOPY(x,x)) */
+#ifdef KNOB_ALIAS
+#define LWE_SAMPLE2_OK(s, r, n_) __CPROVER_pointer_equals(s, r)
+#else
+#define LWE_SAMPLE2_OK(s, r, n_) LWE_SAMPLE_OK(s, n_)
+#endif
 /* ---- lweCopy: result = sample */
 #define CONTRACT_lweCopy \
-    __CPROVER_requires(LWE_PARAMS_OK(params) && LWE_SAMPLE_OK(result, params->n) && LWE_SAMPLE_OK(sample, params->n) && LWE_GHOST_OK(params->n)) \
+    __CPROVER_requires(LWE_PARAMS_OK(params) && LWE_SAMPLE_OK(result, params->n) && LWE_SAMPLE2_OK(sample, result, params->n) && LWE_GHOST_OK(params->n)) \
     __CPROVER_requires(VAR_OK(sample->current_variance)) \
     LWE_FRAME(result) \
-    __CPROVER_ensures(result->a[GKP] == sample->a[GKP] && result->b == sample->b && result->current_variance == sample->current_variance)
+    __CPROVER_ensures(result->a[GKP] == OLD(sample->a[GKP]) && result->b == OLD(sample->b) && result->current_variance == OLD(sample->current_variance))
+#ifdef KNOB_ALIAS
+#define LOOP_lweCopy_0(i) LWE_LOOP(i, params->n, result->a, LENTRY(result->a[GKP]))
+#else
 #define LOOP_lweCopy_0(i) LWE_LOOP(i, params->n, result->a, sample->a[GKP])
+#endif
 
 /* ---- lweNegate: result = -sample */
 #define CONTRACT_lweNegate \
-    __CPROVER_requires(LWE_PARAMS_OK(params) && LWE_SAMPLE_OK(result, params->n) && LWE_SAMPLE_OK(sample, params->n) && LWE_GHOST_OK(params->n)) \
+    __CPROVER_requires(LWE_PARAMS_OK(params) && LWE_SAMPLE_OK(result, params->n) && LWE_SAMPLE2_OK(sample, result, params->n) && LWE_GHOST_OK(params->n)) \
     __CPROVER_requires(VAR_OK(sample->current_variance)) \
     LWE_FRAME(result) \
-    __CPROVER_ensures(result->a[GKP] == T32(0u - U32(sample->a[GKP])) && result->b == T32(0u - U32(sample->b))) \
-    __CPROVER_ensures(result->current_variance == sample->current_variance)
+    __CPROVER_ensures(result->a[GKP] == T32(0u - U32(OLD(sample->a[GKP]))) && result->b == T32(0u - U32(OLD(sample->b)))) \
+    __CPROVER_ensures(result->current_variance == OLD(sample->current_variance))
+#ifdef KNOB_ALIAS
+#define LOOP_lweNegate_0(i) LWE_LOOP(i, params->n, result->a, 0u - U32(LENTRY(result->a[GKP])))
+#else
 #define LOOP_lweNegate_0(i) LWE_LOOP(i, params->n, result->a, 0u - U32(sample->a[GKP]))
+#endif
 
 /* ---- lweNoiselessTrivial: result = (0,mu) */
 #define CONTRACT_lweNoiselessTrivial \
